@@ -44,6 +44,13 @@ fn conv(out: &mut impl Write, ty: &str, what: &str, dom: u32, f: impl Fn(u32) ->
     writeln!(out, "{}", json!({"kind":"conv","type":ty,"conv":what,"domain":dom + 1,"failures":bad.len(),"first":bad.first().map(|x| *x as i64).unwrap_or(-1)})).unwrap();
 }
 
+/// the text rusticata_macros::debug::HexSlice gives a byte slice
+struct HexText(String);
+impl core::fmt::Debug for HexText { fn fmt(&self, f: &mut core::fmt::Formatter) -> core::fmt::Result { f.write_str(&self.0) } }
+fn tls_parser_hex(b: &[u8]) -> HexText {
+    HexText(format!("{:?}", tls_parser::rusticata_macros::debug::HexSlice(b)))
+}
+
 /// sweep-registry <out.ndjson>
 pub fn cmd_registry(args: &[String]) -> i32 {
     let mut out = BufWriter::new(std::fs::File::create(&args[0]).expect("create"));
@@ -88,6 +95,44 @@ pub fn cmd_registry(args: &[String]) -> i32 {
     conv(&mut out, "TlsCipherSuiteID", "lowerhex", 65535, |v| format!("{:x}", TlsCipherSuiteID(v as u16)) == format!("{:x}", v));
     conv(&mut out, "TlsCipherSuiteID", "display_dec", 65535, |v| format!("{}", TlsCipherSuiteID(v as u16)) == v.to_string());
     conv(&mut out, "TlsCipherSuiteID", "debug_has_hex", 65535, |v| format!("{:?}", TlsCipherSuiteID(v as u16)).starts_with(&format!("0x{:04x}(", v)));
+    // composite Debug texts print registry names through the newtypes' own Display/Debug (judged above against Registry.tla):
+    // for every value of the field, the composite's text is the documented composition of the component texts
+    conv(&mut out, "TlsExtension::SignatureAlgorithms", "debug_composes", 65535, |v| {
+        let s = format!("{}", SignatureScheme(v as u16));
+        let want = if s.starts_with("SignatureScheme") { format!("HashSign({},{})", HashAlgorithm((v >> 8) as u8), SignAlgorithm(v as u8)) } else { s };
+        format!("{:?}", TlsExtension::SignatureAlgorithms(vec![0x0403, v as u16])) == format!("TlsExtension::SignatureAlgorithms({:?})", vec![format!("{}", SignatureScheme(0x0403)), want])
+    });
+    conv(&mut out, "SignatureAndHashAlgorithm", "display_composes", 65535, |v| {
+        let x = SignatureAndHashAlgorithm { hash: HashAlgorithm((v >> 8) as u8), sign: SignAlgorithm(v as u8) };
+        format!("{}", x) == format!("HashSign({},{})", HashAlgorithm((v >> 8) as u8), SignAlgorithm(v as u8))
+            && format!("{:?}", x) == format!("SignatureAndHashAlgorithm({},{})", HashAlgorithm((v >> 8) as u8), SignAlgorithm(v as u8))
+    });
+    conv(&mut out, "TlsExtension::EllipticCurves", "debug_composes", 65535, |v|
+        format!("{:?}", TlsExtension::EllipticCurves(vec![NamedGroup(v as u16), NamedGroup(23)])) == format!("TlsExtension::EllipticCurves({:?})", vec![format!("{}", NamedGroup(v as u16)), format!("{}", NamedGroup(23))]));
+    conv(&mut out, "TlsExtension::SupportedVersions", "debug_composes", 65535, |v|
+        format!("{:?}", TlsExtension::SupportedVersions(vec![TlsVersion(v as u16)])) == format!("TlsExtension::SupportedVersions(v={:?})", vec![format!("{}", TlsVersion(v as u16))]));
+    conv(&mut out, "TlsRecordHeader", "debug_composes", 65535, |v| {
+        let h = TlsRecordHeader { record_type: TlsRecordType((v >> 8) as u8), version: TlsVersion(v as u16), len: (v & 0xff) as u16 };
+        format!("{:?}", h) == format!("TlsRecordHeader {{ type: {:?}, version: {:?}, len: {} }}", TlsRecordType((v >> 8) as u8), TlsVersion(v as u16), v & 0xff)
+    });
+    conv(&mut out, "TlsMessageAlert", "debug_composes", 65535, |v| {
+        let a = TlsMessageAlert { severity: TlsAlertSeverity((v >> 8) as u8), code: TlsAlertDescription(v as u8) };
+        format!("{:?}", a) == format!("TlsMessageAlert {{ severity: {:?}, code: {:?} }}", TlsAlertSeverity((v >> 8) as u8), TlsAlertDescription(v as u8))
+    });
+    conv(&mut out, "ECParametersContent::NamedGroup", "debug_composes", 65535, |v|
+        format!("{:?}", ECParametersContent::NamedGroup(NamedGroup(v as u16))) == format!("{}", NamedGroup(v as u16)));
+    conv(&mut out, "TlsServerHelloContents", "debug_composes", 65535, |v| {
+        static R: [u8; 2] = [1, 2];
+        let sh = TlsServerHelloContents::new(v as u16, &R, None, v as u16, (v >> 8) as u8, None);
+        format!("{:?}", sh) == format!("TlsServerHelloContents {{ version: {:?}, random: {:?}, session_id: None, cipher: {:?}, compression: {:?}, ext: None }}",
+                                       TlsVersion(v as u16), tls_parser_hex(&R), TlsCipherSuiteID(v as u16), TlsCompressionID((v >> 8) as u8))
+    });
+    conv(&mut out, "TlsClientHelloContents", "debug_composes", 65535, |v| {
+        static R: [u8; 2] = [1, 2];
+        let ch = TlsClientHelloContents::new(v as u16, &R, None, vec![TlsCipherSuiteID(v as u16)], vec![TlsCompressionID(v as u8)], None);
+        format!("{:?}", ch) == format!("TlsClientHelloContents {{ version: {:?}, random: {:?}, session_id: None, ciphers: {:?}, comp: {:?}, ext: None }}",
+                                       TlsVersion(v as u16), tls_parser_hex(&R), vec![TlsCipherSuiteID(v as u16)], vec![TlsCompressionID(v as u8)])
+    });
     conv(&mut out, "SignatureScheme", "hash_alg", 65535, |v| SignatureScheme(v as u16).hash_alg() as u32 == v >> 8);
     conv(&mut out, "SignatureScheme", "sign_alg", 65535, |v| SignatureScheme(v as u16).sign_alg() as u32 == v & 0xff);
     writeln!(out, "{}", json!({"kind":"reserved","rle": rle((0..=65535u32).map(|v| if SignatureScheme(v as u16).is_reserved() {"1".to_string()} else {"0".to_string()}))})).unwrap();
